@@ -108,17 +108,7 @@ func gen(r *rand.Rand, i int, tier string) Case {
 		base = fwPick(r, bases)
 	}
 	ff := fwPick(r, floatFormats)
-	dirty := ""
-	if i < probeN {
-		if i%5 == 0 {
-			dirty = dirtyKinds[(i/5)%len(dirtyKinds)]
-		}
-	} else if r.IntN(100) < 12 {
-		dirty = fwPick(r, dirtyKinds)
-	}
-	if dirty == "integer-point-nondecimal-base" && base == 10 {
-		base = fwPick(r, []int{2, 8, 16, 36})
-	}
+	dirty := "" // the avoid set is empty
 	long := dirty == "" && r.IntN(100) < 4
 	var force []string
 	if i < len(probeKinds)*len(probeKinds) {
@@ -773,6 +763,23 @@ func (m *runner) clFuncs(base outcome) {
 	// first form whose proper prefixes are hard errors for the pinned tree
 	trigger := "none"
 	for i := range c.Segs {
+		// leaves that stay unreadable by the grow-and-retry loop: a proper prefix is a hard error
+		// of its own (#\u0041 through #\u0 = code 0, #b101/0111 through #b101/0 = zero denominator)
+		g := &c.Segs[i]
+		txt := T[g.S:g.E]
+		if g.F == 0 && g.K == "char" && 4 < len(txt) && (txt[2] == 'u' || txt[2] == 'U') && txt[3] == '0' {
+			trigger = "hex-character-with-leading-zero"
+			break
+		}
+		if g.F == 0 && g.K == "rint" && strings.Contains(txt, "/0") {
+			trigger = "radix-ratio-denominator-with-leading-zero"
+			break
+		}
+	}
+	for i := range c.Segs {
+		if trigger != "none" {
+			break
+		}
 		g := &c.Segs[i]
 		if g.F == 0 && (g.K == "char" || g.K == "pipe" || g.K == "rint" || (g.K == "str" && 0 < len(g.X))) {
 			trigger = g.K
@@ -1155,7 +1162,7 @@ func init() {
 			"Per case: ReadString vs expectation (disagreements named by root cause); ReadOne and read-from-string object+position per form; cl:read (seekable and byte-wise stream); " +
 			"ReadStream for EVERY single cut position under three reader behaviours (EOF by a separate read, EOF together with the last data, 0-byte reads + EOF with data), every fixed chunk size, " +
 			"every pair of cuts of short texts, 200 random multi-cuts, slip.InputStream wrapper, push/each/one-form variants (incl. cuts exactly between top-level objects and inside multi-byte code points), padding to the natural 64 KiB block boundary; every proper prefix (truncation). " +
-			"About 12% of cases hold exactly one construct of the avoid set (dirty stream: .5 floats, 10. under a non-decimal base); the clean stream avoids them and the constructs slip rejects loudly in every delivery (see meta note). Distinct = distinct case JSON; non-trivial = text of >= 3 bytes",
+			"The avoid set is empty: every construct the pinned tree misread is repaired and generated in the clean stream (incl. .5 floats and 10. under a non-decimal base); only constructs slip rejects loudly and identically in every delivery are not generated (see meta note). Distinct = distinct case JSON; non-trivial = text of >= 3 bytes",
 		N:     nCases,
 		Gen:   gen,
 		Exec:  exec,
